@@ -75,28 +75,31 @@ def fc_of(agg, table, cx, shft):
 @harness("C10", "vibronic_build",
          quick=[dict(nmol=1, nmodes=1, nmax=[2, 2]), dict(nmol=2, nmodes=1, nmax=[2, 2]),
                 dict(nmol=2, nmodes=[0, 1], nmax=[3, 2]), dict(nmol=2, nmodes=[2, 1], nmax=[2, 2]),
-                dict(nmol=3, nmodes=[1, 0, 1], nmax=[2, 2], mult=2)],
+                dict(nmol=3, nmodes=[1, 0, 1], nmax=[2, 2], mult=2), dict(nmol=2, nmodes=[1, 1], nmax=[2, 2], mult=2, full=True)],
          thorough=[dict(nmol=1, nmodes=1, nmax=[3, 2]), dict(nmol=1, nmodes=2, nmax=[2, 2]),
                    dict(nmol=2, nmodes=1, nmax=[2, 2]), dict(nmol=2, nmodes=1, nmax=[3, 2]),
                    dict(nmol=2, nmodes=2, nmax=[2, 2]), dict(nmol=2, nmodes=[0, 1], nmax=[3, 2]),
                    dict(nmol=2, nmodes=[2, 1], nmax=[2, 2]), dict(nmol=3, nmodes=[1, 0, 1], nmax=[2, 2], mult=2),
                    dict(nmol=3, nmodes=[1, 1, 1], nmax=[2, 2], mult=2), dict(nmol=2, nmodes=[1, 1], nmax=[2, 3], mult=2),
-                   dict(nmol=3, nmodes=[0, 2, 1], nmax=[2, 2], mult=1)],
+                   dict(nmol=3, nmodes=[0, 2, 1], nmax=[2, 2], mult=1),
+                   dict(nmol=2, nmodes=[1, 1], nmax=[2, 2], mult=2, full=True),
+                   dict(nmol=3, nmodes=[1, 0, 1], nmax=[2, 2], mult=2, full=True)],
          functions=[F_AB + ":AggregateBase.build", F_AB + ":AggregateBase.fc_factor", F_AB + ":AggregateBase.coupling",
                     F_AB + ":AggregateBase.transition_dipole", F_AS + ":ElectronicState.vsignatures",
                     F_AS + ":VibronicState", F_AB + ":AggregateBase.allstates"],
          bound="1-3 molecules with 0-2 modes each (different numbers of modes per molecule included), 2-3 levels per "
                "mode and electronic state (full vibrational state space), single-exciton band and (3 molecules) the "
-               "two-exciton band; electronic energies, couplings, dipoles symbolic; Franck-Condon overlaps "
+               "two-exciton band, also with the full Frenkel coupling between the ground and the two-exciton band "
+               "(fem_full=True); electronic energies, couplings, dipoles symbolic; Franck-Condon overlaps "
                "an uninterpreted matrix per shift difference; shifts, frequencies and level counts of the reference "
                "are read from the molecules' modes, not from the aggregate's states",
          out="the values of the overlaps (Poisson law, orthogonality: exp/eig of a 100-level matrix); truncated "
              "state-generation approximations; molecules with more than two electronic levels")
-def vibronic_build(cx, nmol, nmodes, nmax, mult=1):
+def vibronic_build(cx, nmol, nmodes, nmax, mult=1, full=False):
     agg, mols, g, e, d, J, table = vib_aggregate(cx, nmol, nmodes, nmax)
     if not isinstance(nmodes, (list, tuple)):
         nmodes = [nmodes] * nmol
-    agg.build(mult=mult)
+    agg.build(mult=mult, fem_full=full)
     states = [s for (a, s) in agg.all_states]
     n = len(states)
     cx.prove("dim", agg.Ntot == n and agg.HamOp.dim == n)
@@ -154,6 +157,9 @@ def vibronic_build(cx, nmol, nmodes, nmax, mult=1):
             diff = [p for p in range(nmol) if ea[p] != eb[p]]
             if a != b:
                 if sum(ea) == sum(eb) and sum(ea) >= 1 and len(diff) == 2:
+                    cx.prove_eq("H[%d,%d]" % (a, b), H[a, b], J[diff[0], diff[1]] * f, tol=1e-9)
+                elif full and abs(sum(ea) - sum(eb)) == 2 and len(diff) == 2:
+                    # full Frenkel-exciton coupling: ground band <-> two-exciton band, both molecules change
                     cx.prove_eq("H[%d,%d]" % (a, b), H[a, b], J[diff[0], diff[1]] * f, tol=1e-9)
                 else:
                     cx.prove_eq("H[%d,%d]" % (a, b), H[a, b], 0, tol=1e-12)
